@@ -93,6 +93,7 @@ def units(tier):
     wrap("C01.add_other_logk.scaled_addition", M.unit_add_other_logk)
     wrap("C01.iap_logk_pairing", M.unit_iap_logk_pairing)
     wrap("C01.build_model.prescribed_mole_balance_used_at_both_sites", M.unit_species_list_site)
+    wrap("C01.write_mass_action_eqn_x.rewrite_scaled_by_token_coefficient", M.unit_rewrite_scaling)
     from props import c01_model as MM
     wrap("C01.molalities.mass_action", MM.unit_molalities)
     wrap("C01.sum_species.totals_charge_alkalinity", MM.unit_sum_species)
@@ -103,6 +104,7 @@ def units(tier):
     wrap("C01.residuals.row_equations", MR.unit_residual_rows)
     from props import c01_readouts as RO
     wrap("C01.species_readouts.LA==LM+LG", RO.unit_species_readouts)
+    wrap("C01.total.TOT_is_per_kg_water_on_every_branch", RO.unit_total_readout)
     wrap("C01.saturation_index.SI==IAP-logK", lambda twin=False: M.unit_si_readout("saturation_index", twin))
     wrap("C01.saturation_ratio.SI==IAP-logK", lambda twin=False: M.unit_si_readout("saturation_ratio", twin))
     return us
